@@ -175,6 +175,7 @@ def step (ws : List String) : String :=
   | ["recomp", p] => recomp (cz (hexArg p))
   | ["research", nm, p, t] => research (natArg nm) (cz (hexArg p)) (hexArg t)
   | ["inis", h] => iniOut "inis" (Ini.parseString Ini.genCfg iniHandler iniJunk (cz (hexArg h)))
+  | ["inifile", h] => iniOut "inifile" (Ini.parseFile Ini.genCfg iniHandler iniJunk (hexArg h))
   | "inif" :: fills =>
     let fs := fills.map hexArg
     if fs.any (fun f => f.length + 1 > Ini.genCfg.readerNum) then "inif bad-fill"
